@@ -195,5 +195,39 @@ EmitQuoteSweep ==
            /\ (~HasChar(val, cDQ) => PrintT(ToJson([i |-> pre \o <<cDQ>> \o val \o <<cDQ>>, e |-> canon, tag |-> "C06"])))
            /\ (~HasChar(val, cDQ) => PrintT(ToJson([i |-> Cp("( ") \o pre \o <<cDQ>> \o val \o <<cDQ>> \o Cp(" ) -o -true"),
                                                      e |-> ParseText(Cp("( ") \o bare \o Cp(" ) -o -true")), tag |-> "C06"])))
+\* the same special values, bare, with every word on its own line (LF, CR LF) and indented (a reader that treats
+\* "# ..." lines as comments, or joins lines ending in a backslash, changes what the words mean)
+EmitLines ==
+  vSeq = <<>> =>
+    \A k \in 1..Len(QuoteKws) : \A v \in 1..Len(QuoteVals) : \A sep \in {<<cLF>>, <<cCR, cLF>>, <<cLF, cSP, cSP>>, <<cSP, cLF>>} :
+      LET val == QuoteVals[v]
+          canon == ParseText(QuoteKws[k] \o <<cSP>> \o val \o Cp(" -o -true"))
+          txt == QuoteKws[k] \o sep \o val \o sep \o Cp("-o") \o sep \o Cp("-true")
+      IN canon.st = "ok" => PrintT(ToJson([i |-> txt, e |-> canon, tag |-> "C06"]))
+\* LENGTH: one long argument (lengths around the usual buffer sizes) in the three quoting styles, and redundant
+\* parentheses nested to depths around the usual limits; expected = what the plain spelling gives
+Rep(c, n) == [i \in 1..n |-> c]
+ArgLens == {100, 255, 256, 257, 1000, 1023, 1024, 1025, 2048, 4095, 4096, 4097, 5000}
+EmitLongArgs ==
+  vSeq = <<>> =>
+    \A n \in ArgLens : \A kw \in {Cp("-name "), Cp("-regex "), Cp("-printf ")} :
+      LET val == Rep(97, n - 2) \o <<42, 98>>
+          canon == ParseText(kw \o val)
+      IN /\ PrintT(ToJson([i |-> kw \o val, e |-> canon, tag |-> "C06"]))
+         /\ PrintT(ToJson([i |-> kw \o <<cSQ>> \o val \o <<cSQ>>, e |-> canon, tag |-> "C06"]))
+         /\ PrintT(ToJson([i |-> kw \o <<cDQ>> \o val \o <<cDQ>> \o Cp(" "), e |-> canon, tag |-> "C06"]))
+ParenDepths == {10, 32, 33, 63, 64, 65, 100, 127, 128, 129, 150, 151, 200, 250}
+RECURSIVE LeftNest(_)
+LeftNest(n) == IF n = 0 THEN Cp("-name c0") ELSE Cp("( ") \o LeftNest(n - 1) \o Cp(" -o -name c1 )")
+EmitDeepParens ==
+  vSeq = <<>> =>
+    \A n \in ParenDepths :
+      LET inner == Cp("-name x -o -print")
+          canon == ParseText(Cp("( ") \o inner \o Cp(" )"))
+          txt == Flatten(Rep(Cp("( "), n)) \o inner \o Flatten(Rep(Cp(" )"), n))
+          tight == Rep(cLP, n) \o inner \o Rep(cRP, n)
+      IN /\ PrintT(ToJson([i |-> txt, e |-> canon, tag |-> "C06"]))
+         /\ PrintT(ToJson([i |-> tight, e |-> canon, tag |-> "C06"]))
+         /\ (n <= 100 => PrintT(ToJson([i |-> LeftNest(n), e |-> ParseText(LeftNest(n)), tag |-> "C06"])))
 InvBlank == vSeq = <<>> => \A s \in BlankStrs : ParseText(s).st = "ok" /\ ParseText(s).t = TrueNode
 =============================================================================
